@@ -115,7 +115,9 @@ class Simulation:
         self._events_cancelled: int = 0
 
         # Pre-run scheduled events — replayed on reset()
-        self._pre_run_event_specs: list[tuple[Instant, str, object, bool, dict]] = []
+        self._pre_run_event_specs: list[tuple] = []
+        # Indices of specs whose event was already cancelled when the first run started
+        self._pre_run_cancelled: set[int] | None = None
 
         # Control surface — lazy-created on first access
         self._control = None
@@ -215,18 +217,29 @@ class Simulation:
         for e in items:
             meta = e.context.get("metadata", {}) if e.context else {}
             self._pre_run_event_specs.append(
-                (e.time, e.event_type, e.target, e.daemon, dict(meta))
+                (e.time, e.event_type, e.target, e.daemon, dict(meta), list(e.on_complete), e)
             )
 
     def _replay_pre_run_events(self) -> None:
-        """Recreate and push all events that were scheduled before the first run."""
-        for time, event_type, target, daemon, meta in self._pre_run_event_specs:
+        """Recreate and push all events that were scheduled before the first run.
+
+        Events are recreated in their original creation order (so that ties at
+        equal timestamps repeat), with their completion hooks; events that were
+        already cancelled when the first run started are not replayed.
+        """
+        specs = self._pre_run_event_specs
+        skipped = self._pre_run_cancelled or set()
+        for i in sorted(range(len(specs)), key=lambda i: specs[i][6]._sort_index):
+            if i in skipped:
+                continue
+            time, event_type, target, daemon, meta, hooks, _original = specs[i]
             ctx = {"metadata": dict(meta)} if meta else None
             fresh = Event(
                 time=time,
                 event_type=event_type,
                 target=target,
                 daemon=daemon,
+                on_complete=list(hooks),
                 context=ctx,
             )
             self._event_heap.push(fresh)
@@ -262,6 +275,10 @@ class Simulation:
             self._events_processed = 0
             self._is_running = True
             self._event_heap.set_current_time(self._current_time)
+            if self._pre_run_cancelled is None:
+                self._pre_run_cancelled = {
+                    i for i, spec in enumerate(self._pre_run_event_specs) if spec[6].cancelled
+                }
 
             logger.info(
                 "Simulation starting at %r with %d event(s) in heap",
